@@ -24,16 +24,23 @@ CallSame(h, c) ==
 
 JudgeHeader(o) ==
     LET h == o.h
-        asModel == o.sigdef = ImplSigDef(h) /\ o.sigrt = ImplSigRt(h)
+        n == Len(h.params)
+        shaped == o.sigdef.t = "Sig" /\ o.sigrt.t = "Sig" /\ Len(o.sigdef.a) = n + 1 /\ Len(o.sigrt.a) = n + 1
+        clauseAsModel(j) == \A i \in 1..n : /\ o.sigdef.a[i].t = "Param" /\ o.sigrt.a[i].t = "Param"
+                                            /\ o.sigdef.a[i].a[j] = ImplSigDef(h).a[i].a[j]
+                                            /\ o.sigrt.a[i].a[j] = ImplSigRt(h).a[i].a[j]
+        kindsExcused == Dev_DunderPositionalOnly(h) /\ shaped /\ clauseAsModel(1)
+        defaultsExcused == Dev_EllipsisDefault(h) /\ shaped /\ clauseAsModel(2)
     IN /\ (IF RefInspect(h) = o.inspect THEN TRUE ELSE Say(o.tid, "oracle:RefInspect"))
        /\ (IF {[npos |-> o.calls[k].npos, kws |-> ToSet(o.calls[k].kws), bad |-> o.calls[k].bad] : k \in 1..Len(o.calls)} = Calls(h)
            THEN TRUE ELSE Say(o.tid, "oracle:calls-recorded"))
        /\ (IF o.sigdef = ImplSigDef(h) THEN TRUE ELSE Say(o.tid, "drift:sigdef"))
        /\ (IF o.sigrt = ImplSigRt(h) THEN TRUE ELSE Say(o.tid, "drift:sigrt"))
        /\ (IF RefSameSig(h, o.sigdef, o.sigrt) THEN TRUE
-           \* a disagreement is a known deviation only if the real results are exactly what the model of the
-           \* current code predicts and switching off the clauses of the applicable classes removes it
-           ELSE IF asModel /\ RefSameSigModulo(h, o.sigdef, o.sigrt, Dev_DunderPositionalOnly(h), Dev_EllipsisDefault(h))
+           \* a disagreement is a known deviation only if switching off the clauses of the applicable classes
+           \* removes it, and a clause is switched off only where the real results show exactly what the model
+           \* of the current code predicts for that clause
+           ELSE IF RefSameSigModulo(h, o.sigdef, o.sigrt, kindsExcused, defaultsExcused)
                 THEN /\ (IF KindsDiffer(h, o.sigdef, o.sigrt) THEN Say(o.tid, "dev:dunder-parameter-positional-only") ELSE TRUE)
                      /\ (IF DefaultsDiffer(h, o.sigdef, o.sigrt) THEN Say(o.tid, "dev:ellipsis-default") ELSE TRUE)
            ELSE Say(o.tid, "viol:HeaderViewsAgree"))
